@@ -747,6 +747,64 @@ def outage_script(make_impl, canon_fn, twisted, n):
     return events, lines
 
 
+def backlog_script(make_impl, canon_fn, twisted, n):
+    """C12 with a SLOW CONSUMER: n messages arrive (a few per read, several hundred in some reads) while the application
+    issues no read(); then it reads them all.  Every message is handed over, once, in order - however long the backlog."""
+    impl = make_impl()
+    events, lines = [], []
+
+    def do(ev):
+        events.append(ev)
+        lines.append(canon_fn(impl.event(ev)))
+    try:
+        do(['start'] if twisted else ['idle'])
+        do(['sub', hexin(b'c1')])
+        if not impl.attempts:
+            do(['advance', 1000])
+        do(['accept'])
+        do(['data', hexin(enc(P.OP_INFO, p8(b'hp') + b'\x01\x02\x03\x04'))])
+        sent, k = 0, 0
+        while sent < n:
+            m = [1, 3, 40, 257, 600][k % 5]
+            m = min(m, n - sent)
+            chunk = b''.join(enc(P.OP_PUBLISH, p8(b'alice') + p8(b'c1') + b'm%d' % (sent + i)) for i in range(m))
+            do(['data', hexin(chunk)])
+            sent += m
+            k += 1
+        for _ in range(n):
+            do(['read'])
+        do(['idle'])
+    finally:
+        impl.close()
+    return events, lines
+
+
+def run_backlog(res, drv, make_impl, canon_fn, twisted, prefix, client, n):
+    events, lines = backlog_script(make_impl, canon_fn, twisted, n)
+    script = {'client': client, 'ident': 'me', 'secret': 'secret', 'events': events, 'legal': True, 'backlog': n}
+    before = len(res.violations)
+    monitors(res, ('me', 'secret'), events, lines, script)
+    handed = sum(1 for l in lines for o in l.split(';') if o.startswith('H:'))
+    if handed != n and not [v for v in res.violations[before:] if v['property'] == 'C12']:
+        res.violation('C12', 'backlog-lost', '%s session: %d messages arrived while the application was not reading, it then issued %d read() calls and was handed %d' % (client, n, n, handed), script)
+    for v in res.violations[before:]:
+        if twisted:
+            v['what'] = v['what'].replace('asyncio session', 'Twisted service')
+        v['engine'] = res.engine
+    res.evaluations += 1
+    res.note('backlog')
+    res.nontriv(['backlog-%d-%s' % (n, client)])
+    if drv is not None:
+        drv.ask(reset_line('me', 'secret') if prefix == 'a' else '%s.reset %s %s' % (prefix, hexin(b'me'), hexin(b'secret')))
+        for idx, (ev, line) in enumerate(zip(events, lines)):
+            mo = drv.ask('%s.ev ' % prefix + ' '.join(str(x) for x in ev))
+            status, _, mline = mo.partition(' ')
+            mline = canon_fn([o for o in mline.split(';') if o])
+            if status != 'ok' or mline != line:
+                res.disagree('%s, backlog of %d messages, event %d %r' % (client, n, idx, ev[:2]), script, line[:800], mo[:800])
+                break
+
+
 def run_outage(res, drv, make_impl, canon_fn, twisted, prefix, client, n):
     events, lines = outage_script(make_impl, canon_fn, twisted, n)
     script = {'client': client, 'ident': 'me', 'secret': 'secret', 'events': events, 'legal': True, 'outage': n}
@@ -786,6 +844,8 @@ def run(tier, seed, drv, prop=None):
         run_sweep(res, drv, lambda: Impl('me', 'secret'), canon, False, 'a', 'asyncio', double=(tier == 'thorough'))
     if prop in (None, 'C13'):
         run_outage(res, drv, lambda: Impl('me', 'secret'), canon, False, 'a', 'asyncio', {'quick': 1100, 'thorough': 5000}[tier])
+    if prop in (None, 'C12'):
+        run_backlog(res, drv, lambda: Impl('me', 'secret'), canon, False, 'a', 'asyncio', {'quick': 1500, 'thorough': 6000}[tier])
     res.assumptions += [
         'asyncio create_connection is replaced by a scripted attempt (accept / refuse); transports are fakes honouring the selector-transport contract; time is virtual',
         'application calls are injected at quiescent points of the session\'s own tasks',
